@@ -80,6 +80,9 @@ func C07(c *core.Ctx) {
 	runs := []struct{ name, cfg string }{{"grammar", cfg}}
 	// one level deeper (a substitution inside a default / replacement / message), single top-level item
 	runs = append(runs, struct{ name, cfg string }{"grammar-nested", "SPECIFICATION Spec\nCONSTANTS W0 = 1\n W1 = 1\n Deep = TRUE\n RestAny = FALSE\nINVARIANTS Laws\nCHECK_DEADLOCK FALSE\n"})
+	// three top-level items, the first any substitution with an empty word, the others leaves (text after a substitution:
+	// `$NAME`, `$$`, a closing brace)
+	runs = append(runs, struct{ name, cfg string }{"grammar-tail", "SPECIFICATION Spec\nCONSTANTS W0 = 0\n W1 = 3\n Deep = FALSE\n RestAny = FALSE\nINVARIANTS Laws\nCHECK_DEADLOCK FALSE\n"})
 	if !c.Quick() {
 		runs = append(runs, struct{ name, cfg string }{"grammar-deep", "SPECIFICATION Spec\nCONSTANTS W0 = 1\n W1 = 2\n Deep = TRUE\n RestAny = FALSE\nINVARIANTS Laws\nCHECK_DEADLOCK FALSE\n"})
 	}
